@@ -18,6 +18,14 @@ FILLS = {'all-ffff': lambda a: 0xFFFF, 'all-0000': lambda a: 0, 'all-7fff': lamb
 _HEALTHY_IDS = {}
 
 
+def _txt(v):
+    # (the text of a value handed out by the library; a value whose str() raises is told apart, not a harness crash)
+    try:
+        return str(v)
+    except Exception as e:  # noqa: BLE001
+        return f'<str() raised {type(e).__name__}>'
+
+
 def _ids_with_healthy_contents(cfg):
     if cfg['name'] not in _HEALTHY_IDS:
         r = make_rig(cfg, fill=_healthy)
@@ -80,7 +88,7 @@ def run_case(cfg, fname, group=None, prepoll=False):
             elif list(res[1]) != list(dict.fromkeys(ids)):
                 vio.append((f'settings-data-every-id/{cfg["family"]}', f'{pass_}: missing {sorted(set(ids) - set(res[1]))[:4]}'))
             else:
-                bulk = {k: (None if v is None else str(v)) for k, v in res[1].items()}
+                bulk = {k: (None if v is None else _txt(v)) for k, v in res[1].items()}
         for sid in ids:
             if sid == 'time' and cfg['family'] == 'ES':
                 continue
@@ -94,7 +102,7 @@ def run_case(cfg, fname, group=None, prepoll=False):
             # settings blob, the single reads of the eco groups go to Modbus registers - not the same bytes)
             if bulk is not None and ids.count(sid) == 1 and sid != 'time' and cfg['family'] == 'ET':
                 # what the single read makes of the very same registers is what the bulk read reports for the id
-                want = str(res[1]) if res[0] == 'ok' and res[1] is not None else None if (res[0] == 'exc' and res[1] == 'ValueError') or res[0] == 'ok' else '?'
+                want = _txt(res[1]) if res[0] == 'ok' and res[1] is not None else None if (res[0] == 'exc' and res[1] == 'ValueError') or res[0] == 'ok' else '?'
                 if want != '?' and bulk.get(sid) != want:
                     vio.append((f'settings-data-value-is-the-single-reading/{cfg["family"]}',
                                 f'{pass_}{" (after " + fname + ")" if pass_ != fname else ""}: {sid} is {bulk.get(sid)!r} in read_settings_data(), read_setting() gives {want!r}'))
